@@ -42,9 +42,14 @@ pub const T_NOPRUNE: &str = "no-prune-without-output-dir";
 /// (avoided by reporting the removal of such files one by one before the directory event)
 pub const T_RMDIR_DEPS: &str = "rmdir-no-restart";
 
+/// live `--watch` back end: an atomic save (temporary file renamed over the source) followed, inside the same
+/// debounce window, by a rename or removal of that source is folded by the debouncer into events that never
+/// mention the replaced source (avoided by letting the watcher converge after every atomic save)
+pub const T_WATCH_FOLD: &str = "watch-save-folded-with-next-event";
+
 /// what the generator avoids by default.  Remove an entry once the defect is fixed in /repo.
 // (T_RMDIR, T_PURE_RM, T_RECREATE, T_RMDIR_DEPS were repaired by "fix:" commits in /repo and are exercised again)
-pub const DEFAULT_AVOID: [&str; 2] = [T_DEPFIX, T_NOPRUNE];
+pub const DEFAULT_AVOID: [&str; 3] = [T_DEPFIX, T_NOPRUNE, T_WATCH_FOLD];
 
 struct Witness {
     name: &'static str,
@@ -61,7 +66,7 @@ const WITNESSES: [Witness; 9] = [
     Witness { name: T_DEPFIX, backend: "mem", foreign: true, dir_events: true, ops: &["break:src/mods/m1.lua", "process", "edit:src/mods/m1.lua"] },
     Witness { name: T_PURE_RM, backend: "mem", foreign: true, dir_events: true, ops: &["rm:src/a.lua"] },
     Witness { name: T_RECREATE, backend: "mem", foreign: true, dir_events: true, ops: &["rm:src/a.lua", "restore:src/a.lua"] },
-    Witness { name: "recreate-before-clean-atomic-save", backend: "mem", foreign: true, dir_events: true, ops: &["save:src/a.lua"] },
+    Witness { name: "recreate-before-clean-atomic-save", backend: "mem", foreign: true, dir_events: false, ops: &["save:src/a.lua"] },
     Witness { name: "rmdir-stale-ids-fs", backend: "fs", foreign: true, dir_events: true, ops: &["rmdir:src/app", "process", "edit:lib/leaf.lua"] },
     Witness { name: T_RMDIR_DEPS, backend: "mem", foreign: true, dir_events: true, ops: &["rmdir:src/mods", "restore"] },
     Witness { name: T_NOPRUNE, backend: "fs", foreign: false, dir_events: true, ops: &["rm:src/sub/deep/c.lua", "process", "edit:src/a.lua"] },
@@ -102,6 +107,7 @@ pub struct C10 {
     blocks: HashMap<&'static str, Rc<Vec<Block>>>,
     dir_counter: u64,
     cache_hits: u64,
+    watch: super::c10_watch::WatchState,
 }
 
 impl Default for C10 {
@@ -121,6 +127,7 @@ impl Default for C10 {
             blocks: HashMap::new(),
             dir_counter: 0,
             cache_hits: 0,
+            watch: Default::default(),
         }
     }
 }
@@ -215,7 +222,35 @@ impl C10 {
     }
 
     fn deterministic_count(&mut self, tier: Tier) -> u64 {
-        WITNESSES.len() as u64 + self.block_list(tier).iter().map(|b| b.count).sum::<u64>()
+        WITNESSES.len() as u64 + self.watch_count(tier) + self.block_list(tier).iter().map(|b| b.count).sum::<u64>()
+    }
+
+    /// histories played against a live `darklua process --watch` (deterministic part): every operation of
+    /// the alphabet alone (quick and thorough); thorough adds every ordered pair, alternately as one burst
+    /// and with a convergence point in between
+    fn watch_count(&self, tier: Tier) -> u64 {
+        let n = self.alphabet.len() as u64;
+        match tier {
+            Tier::Quick => n,
+            Tier::Thorough => n + n * n,
+        }
+    }
+
+    fn watch_case(&self, k: u64) -> Case {
+        let n = self.alphabet.len() as u64;
+        let ops: Vec<String> = if k < n {
+            vec![self.alphabet[k as usize].clone()]
+        } else {
+            let j = k - n;
+            let (a, b) = ((j / n) as usize, (j % n) as usize);
+            let fold = self.avoid.iter().any(|x| x == T_WATCH_FOLD) && self.alphabet[a].starts_with("save:");
+            if j % 2 == 0 && !fold {
+                vec![self.alphabet[a].clone(), self.alphabet[b].clone()]
+            } else {
+                vec![self.alphabet[a].clone(), "process".into(), self.alphabet[b].clone()]
+            }
+        };
+        json!({ "backend": "watch", "ops": ops, "pace_ms": (k % 3) * 15 })
     }
 
     fn decode(&self, mut s: u64, len: usize) -> Vec<String> {
@@ -509,7 +544,11 @@ impl<'a> Hist<'a> {
                 self.call("remove_source", |t| t.remove_source(&full))?;
             }
             Ev::Created(_) => {
-                self.trace.push(format!("    created {} -> collect_work before the next pass", p));
+                // EventKind::Create: source_changed on the path, then collect_work before the next pass
+                self.trace.push(format!("    created {} -> source_changed + collect_work before the next pass", p));
+                cov.hit("call:source_changed");
+                cov.hit("call:source_changed(create)");
+                self.call("source_changed", |t| t.source_changed(&full))?;
                 self.has_created = true;
             }
             Ev::Renamed(..) => {}
@@ -1025,7 +1064,7 @@ impl Monitor for C10 {
              The deterministic prefix enumerates EVERY sequence over an alphabet of {} concrete operations up to length 3 (quick) / 4 (thorough), each under two schedules (a pass after every operation; one pass at the end), on the in-memory back end, plus every sequence up to length 2 on a real temporary directory (output directory pre-seeded with foreign files; without a pre-existing output directory: length 1 and the length-2 sequences that remove a directory); the sequences that remove a directory run a second time with the removal reported as a single event; random histories of 5-30 operations with random pass points follow.  \
              The protocol is the one of FileWatcher::process_events: darklua_core::process, then source_changed / remove_source / collect_work, then WorkerTree::process with fresh Options; notifications are sent only for watched paths (input directory, configuration file, iter_external_dependencies() of the previous pass).  \
              Oracle: the files (and on the real file system the directories) under out/ must equal those of a fresh darklua_core::process over the final sources and configuration into an output directory pre-seeded with the same foreign files; for a source that fails in the fresh run, 'absent' and 'output of its last successful pass' are both accepted.  Hook H1 invariants (node_map <-> graph bijective, no id of a removed node inside external_dependencies, no edge to a missing node) are checked after every notification batch and every pass.  \
-             A history is non-trivial when at least one operation had an effect; distinct = distinct (back end, event style, effective operation sequence with pass points).  Avoided known triggers: {:?}.",
+             LIVE WATCHER: a further family of histories is played against a real `darklua process --watch src out` child process (inotify, notify-debouncer-full, FileWatcher::process_events) by changing the files of a scratch directory: every operation of the alphabet alone (quick and thorough), every ordered pair (thorough; alternately as one burst and with a convergence point in between) and random histories of 2-7 operations in 1-4 bursts at paces of 0-450 ms between file-system changes; after every burst the output directory, polled from outside, must converge (equal at two polls 0.7 s apart, within 8 s; a failing history is played a second time at half speed before it is reported) to the tree a plain `darklua process` of the same binary writes for the current sources, the child must stay alive, and once the output is stable the watcher must not keep running passes (at most 2 pass reports in 2.5 idle seconds).               A history is non-trivial when at least one operation had an effect; distinct = distinct (back end, event style, effective operation sequence with pass points).  Avoided known triggers: {:?}.",
             self.alphabet.len(),
             self.avoid
         )
@@ -1033,7 +1072,8 @@ impl Monitor for C10 {
 
     fn assumptions(&self) -> Vec<String> {
         vec![
-            "the event protocol of FileWatcher::process_events is reproduced at the API level; the debouncer / inotify glue is not exercised".into(),
+            "the event protocol of FileWatcher::process_events is reproduced at the API level for the exhaustive part; the debouncer / inotify glue is exercised by the live-watcher histories only (seconds per history, hence far fewer of them)".into(),
+            "live watcher: convergence is decided by polling; a divergence must be observed twice (second play at half speed) to be reported, a history that diverges once and converges on the slower play is discarded as timing".into(),
             "a created file yields only a 'created' event (notify-debouncer-full drops modifications that follow a creation in the same batch)".into(),
             "the fresh darklua_core::process run is the reference; its own correctness is the subject of other properties".into(),
             "foreign files never collide with an output path".into(),
@@ -1056,6 +1096,11 @@ impl Monitor for C10 {
             return Some(c);
         }
         let mut rest = index - w;
+        let wc = self.watch_count(tier);
+        if rest < wc {
+            return Some(self.watch_case(rest));
+        }
+        rest -= wc;
         let blocks = self.block_list(tier);
         for b in blocks.iter() {
             if rest < b.count {
@@ -1067,6 +1112,19 @@ impl Monitor for C10 {
         }
         // random histories
         let mut r = case_rng("C10", seed, index);
+        if r.chance(1, if tier == Tier::Quick { 1500 } else { 600 }) {
+            // against the live watcher: 2-7 operations in 1-4 bursts
+            let len = r.range(2, 7) as usize;
+            let mut ops = vec![];
+            let avoid_fold = self.avoid.iter().any(|x| x == T_WATCH_FOLD);
+            for _ in 0..len {
+                ops.push(r.pick(&self.random_ops[..]).clone());
+                if r.chance(4, 10) || (avoid_fold && ops.last().map(|o| o.starts_with("save:")).unwrap_or(false)) {
+                    ops.push("process".to_string());
+                }
+            }
+            return Some(json!({ "backend": "watch", "ops": ops, "pace_ms": *r.pick(&[0u64, 0, 5, 30, 120, 450]) }));
+        }
         let len = r.range(5, 30) as usize;
         let pass_chance = *r.pick(&[1u32, 3, 5, 8]);
         let mut ops = vec![];
@@ -1084,6 +1142,9 @@ impl Monitor for C10 {
     }
 
     fn run(&mut self, case: &Case, cov: &mut Cov) -> Verdict {
+        if case["backend"] == "watch" {
+            return self.watch.run(case, cov);
+        }
         self.run_history(case, cov)
     }
 
@@ -1126,7 +1187,7 @@ impl Monitor for C10 {
     fn classify(&mut self, case: &Case, signature: &str) -> String {
         // after shrinking: the classes of operation of the minimal history name the cause.
         // Panics, hangs and invariant failures are classified by their location alone.
-        if !signature.starts_with("tree:") {
+        if !signature.starts_with("tree:") && !signature.starts_with("watch:tree:") {
             return signature.to_string();
         }
         let mut kinds: BTreeSet<String> = BTreeSet::new();
@@ -1160,6 +1221,7 @@ impl Monitor for C10 {
         ] {
             v.push((k.to_string(), 100));
         }
+        v.push(("watch_histories".into(), if tier == Tier::Quick { 25 } else { 400 }));
         v
     }
 
